@@ -18,6 +18,13 @@
 (* expires only when no other party can take a step ("maximal progress"); a timeout of    *)
 (* class "0" may expire at any moment.                                                    *)
 (*                                                                                        *)
+(* Target behaviour "linger": the target returns at once but leaves a non-daemon thread   *)
+(* behind, so the child reports its result (and closes its pipes) while the PROCESS lives  *)
+(* on for longer than any timeout of the history: child state cpc = "linger" (reported but *)
+(* alive; default SIGTERM still kills).  ReportMeansDead = TRUE is the variant in which    *)
+(* ProcessWorker.wait takes the arrival of the final message for the child's death         *)
+(* (must be rejected by C04_Truthful).                                                     *)
+(*                                                                                        *)
 (* Fix = set of proposed repairs that are applied:                                        *)
 (*   "poll"   ProcessWorker.terminate polls the control pipe with the timeout             *)
 (*   "kill"   force-terminate escalates SIGTERM -> SIGKILL (process.py, remote.py)        *)
@@ -26,7 +33,7 @@
 (* Fix = {} is the code as it is.                                                         *)
 EXTENDS Naturals, Sequences, FiniteSets, TLC, LifecycleProps
 
-CONSTANTS Fix, MaxOps, Free, Hist, Cases
+CONSTANTS Fix, MaxOps, Free, Hist, Cases, ReportMeansDead
 
 VARIABLES case,   \* the scenario (constant after Init): [id, kind, pers, beh, start, ops]
           c,      \* child process/thread
@@ -74,9 +81,10 @@ PreNow  == IF ~Started \/ (Dead /\ (Remote => s.fpc = "done")) THEN "dead" ELSE 
 G_Land == c.cos = "run" /\ c.cpc = "target" /\ c.async /\ case.beh \in {"coop", "swallow"}
 G_Wake == c.cos = "run" /\ c.cpc = "target" /\ case.beh = "idle" /\ c.rel
 G_Fin  == c.cos = "run" /\ (c.cpc \in {"fin_rel", "exit"} \/ (c.cpc = "fin_join" /\ c.kpc = "done"))
+G_Ret  == c.cos = "run" /\ c.cpc = "target" /\ case.beh = "linger"          \* the target returns at once
 G_K    == c.cos = "run" /\ c.kpc # "done" /\ (c.kpc = "recv" => c.kbox # <<>>)
 G_Die  == ~Dead /\ (c.sigK \/ (c.sigT /\ c.cos \in {"run", "frozen"}))
-QuietChild == ~(G_Land \/ G_Wake \/ G_Fin \/ G_K \/ G_Die)
+QuietChild == ~(G_Land \/ G_Wake \/ G_Fin \/ G_Ret \/ G_K \/ G_Die)    \* (LingerEnd is slower than any timeout: not counted)
 
 Land == /\ G_Land
         /\ c' = IF case.beh = "coop" THEN [c EXCEPT !.async = FALSE, !.cpc = "fin_rel"]   \* except Exception -> finally
@@ -91,8 +99,16 @@ Fin  == /\ G_Fin
                       THEN [c EXCEPT !.kbox = Append(@, "None"), !.cpc = "fin_join"]        \* release + join the control thread
                       ELSE [c EXCEPT !.cpc = "exit"]
                   [] c.cpc = "fin_join" -> [c EXCEPT !.cpc = "exit"]
-                  [] c.cpc = "exit" -> [c EXCEPT !.cos = "dead", !.cpc = "gone", !.kpc = "done", !.ctrlOpen = FALSE, !.resSent = TRUE]
+                  [] c.cpc = "exit" -> IF case.beh = "linger"     \* result sent, pipes closed - the interpreter now waits for the thread left behind
+                                       THEN [c EXCEPT !.cpc = "linger", !.kpc = "done", !.ctrlOpen = FALSE, !.resSent = TRUE, !.async = FALSE]
+                                       ELSE [c EXCEPT !.cos = "dead", !.cpc = "gone", !.kpc = "done", !.ctrlOpen = FALSE, !.resSent = TRUE]
         /\ UNCHANGED <<case, p, s>>
+Return == /\ G_Ret
+          /\ c' = [c EXCEPT !.cpc = "fin_rel", !.async = FALSE]
+          /\ UNCHANGED <<case, p, s>>
+LingerEnd == /\ c.cos = "run" /\ c.cpc = "linger"           \* the thread left behind ends: the process exits at last
+             /\ c' = [c EXCEPT !.cos = "dead", !.cpc = "gone"]
+             /\ UNCHANGED <<case, p, s>>
 KStep == /\ G_K
          /\ c' = CASE c.kpc = "recv" ->
                        IF Head(c.kbox) = "None"
@@ -200,7 +216,8 @@ PStep ==
           /\ UNCHANGED s
        [] p.pc = "w_join" ->           \* join(timeout)
           /\ Dead \/ PTimeout(T)
-          /\ RetW(RepNow, Dead, ~Dead /\ T = "t") /\ UNCHANGED <<c, s>>
+          /\ LET believed == Dead \/ (ReportMeansDead /\ Kind = "process" /\ c.resSent) IN      \* the code asks the OS (is_alive)
+             RetW(IF believed THEN "T" ELSE "F", believed, ~Dead /\ T = "t") /\ UNCHANGED <<c, s>>
        \* ---- terminate, thread kind ----
        [] p.pc = "t_raise" ->          \* foreign_raise + _release_child
           /\ c' = [c EXCEPT !.async = (c.cpc = "target"), !.rel = (@ \/ (Pers /\ ~p.closed))]
@@ -275,9 +292,9 @@ PStep ==
           /\ UNCHANGED s
   /\ UNCHANGED case
 
-Next == (\E o \in Alphabet : Begin(o)) \/ Stop \/ StopNoop \/ PStep \/ Land \/ Wake \/ Fin \/ KStep \/ Die \/ RStep \/ FStep
+Next == (\E o \in Alphabet : Begin(o)) \/ Stop \/ StopNoop \/ PStep \/ Land \/ Wake \/ Fin \/ Return \/ LingerEnd \/ KStep \/ Die \/ RStep \/ FStep
 Spec == /\ Init /\ [][Next]_vars
-        /\ WF_vars(PStep) /\ WF_vars(Land) /\ WF_vars(Wake) /\ WF_vars(Fin) /\ WF_vars(KStep) /\ WF_vars(Die)
+        /\ WF_vars(PStep) /\ WF_vars(Land) /\ WF_vars(Wake) /\ WF_vars(Fin) /\ WF_vars(Return) /\ WF_vars(LingerEnd) /\ WF_vars(KStep) /\ WF_vars(Die)
         /\ WF_vars(RStep) /\ WF_vars(FStep)
 
 (* ------------------------------- properties -------------------------------------------- *)
@@ -288,7 +305,7 @@ AtRest == p.pc = "idle"
 
 TypeOK == /\ c.cos \in {"run", "frozen", "stopped", "dead"}
           /\ c.kpc \in {"recv", "raise", "close", "done"}
-          /\ c.cpc \in {"target", "fin_rel", "fin_join", "exit", "gone"}
+          /\ c.cpc \in {"target", "fin_rel", "fin_join", "exit", "linger", "gone"}
           /\ s.fpc \in {"wait", "ust", "done"}
           /\ p.nops <= MaxOps \/ ~Free
 Inv_Truthful == AtRest => C04_Truthful(R0)
